@@ -14,7 +14,7 @@ from common import MachineryError, Scratch, Verdict
 PID = "C11"
 INVARIANTS = ["OneTransition", "OutcomeStable", "NoItemIntoFinished", "BodyRunsOnce", "NoItemLeftPending",
               "ItemsBeforeBatch", "AnnouncedOnce", "Precedence", "ActiveMovedBeforeBody", "ActiveIsPending"]
-CONFIGS = ["own/all", "own/some", "own/none", "own/ierr", "own/raise", "own/braise", "own/new", "debug/all", "debug/new"]
+CONFIGS = ["own/all", "own/some", "own/evens", "own/lastraise", "own/none", "own/ierr", "own/raise", "own/braise", "own/new", "debug/all", "debug/new"]
 FIN_CONFIGS = ["own/f%d-%s" % (s, how) for how in ("cancel_e", "cancel", "seterr", "setval") for s in (0, 1)]
 MODES = 3        # replay_c11.py: default options, ENABLE_COMPLEX_ASSERTIONS off, KEEP_DEPENDENCIES on
 ENDINGS = 3      # replay_c11.py: a self-finishing flush body then returns, raises, or tries to set its items again
